@@ -18,7 +18,7 @@ when it raises.  `Cfg` selects the pinned behaviour or the repairs of `fixes/C13
   machine-checked counterexample (`…_witness`), and what does hold in every variant is proved
   without the `Repaired` hypothesis (`C13_cycle_caught`, `C13_remove_any_variant`).
 
-`RecursionError` (Python's recursion limit hit inside `lexical_path`, modelled by `cfg.fuel`)
+`RecursionError` (Python's recursion limit hit inside `lexical_path`, modelled by `cfg.fuel`; for the repaired identity walk: its loop bound)
 is outside the statements: a history is `Admissible` when no step ends that way.
 Only property theorems live here; the lemmas are in `Proofs/Tree.lean`.
 -/
@@ -248,8 +248,10 @@ theorem C13_false_cycle_witness : ¬ RejectedStatement pin := by
   rw [he] at h1
   exact absurd h1 (by decide)
 
+/-- the repaired check compares objects, not path strings: the adoption is legal and accepted -/
 example : (step pin t8 (.add 4 5 (some ['w']) none)).2 = .cyclicPathError ∧
-    (step rep t8 (.add 4 5 (some ['w']) none)).2 = .cyclicPathError := by decide
+    (step rep t8 (.add 4 5 (some ['w']) none)).2 = .ok ∧
+    (step rep t8 (.add 4 5 (some ['w']) none)).1.children 4 = [(['w'], 5)] := by decide
 
 def base9 : List Op :=
   [.new 0 ['w'] none, .new 4 ['m'] (some 0), .new 2 ['a'] (some 4), .add 4 2 (some ['w']) none,
@@ -257,14 +259,30 @@ def base9 : List Op :=
 def t9 : Tree := run rep exEmpty base9
 theorem t9_wf : WFTree t9 := C13_history 64 _ _ _ base9 (by decide)
 
-/-- KF-C13-9 (both variants; all-or-nothing replacement is C14's subject): `replace_child`
-removes the old child and swaps the labels before `add_child` can refuse the newcomer — here
-through a false positive of the string test.  The tree stays well-formed (`C13_state_always_wf`)
-but is not the one before. -/
+/-- KF-C13-9 (all-or-nothing replacement is C14's subject): `replace_child` removes the old
+child and swaps the labels before `add_child` can refuse the newcomer — on the pinned code through
+a false positive of the string test.  The tree stays well-formed (`C13_state_always_wf`) but is not
+the one before.  With the identity check the replacement goes through. -/
 theorem C13_replace_false_cycle_witness :
-    (step rep t9 (.replace 4 2 3)).2 = .cyclicPathError ∧ (step rep t9 (.replace 4 2 3)).1.children 4 = [] ∧
+    (step pin t9 (.replace 4 2 3)).2 = .cyclicPathError ∧ (step pin t9 (.replace 4 2 3)).1.children 4 = [] ∧
     t9.children 4 = [(['w'], 2)] ∧
-    (step pin t9 (.replace 4 2 3)).2 = .cyclicPathError ∧ (step pin t9 (.replace 4 2 3)).1.children 4 = [] := by
+    (step rep t9 (.replace 4 2 3)).2 = .ok ∧ (step rep t9 (.replace 4 2 3)).1.children 4 = [(['w'], 3)] := by
+  decide
+
+def base10 : List Op := [.new 0 ['u'] none]
+def t10 : Tree := run rep exEmpty base10
+/-- KF-C13-10: a macro whose graph creator adds a child labelled like the root workflow cannot
+be constructed inside that workflow (`Macro(parent=wf)`, `wf.create…`): `Lexical.__init__` has
+already made it a child of the workflow when the creator's `self.u = …` trips the string test,
+so the workflow keeps listing a half-built macro.  (Constructor = `new`, then `new` + `setattr`
+of the inner child.)  The identity check accepts all three steps. -/
+theorem C13_constructor_zombie_witness :
+    let s1 := (step pin t10 (.new 4 ['m'] (some 0))).1
+    let s2 := (step pin s1 (.new 2 ['U'] none)).1
+    (step pin s2 (.setattr 4 ['u'] 2)).2 = .cyclicPathError ∧
+    (step pin s2 (.setattr 4 ['u'] 2)).1.children 0 = [(['m'], 4)] ∧ t10.children 0 = [] ∧
+    (step rep (step rep (step rep t10 (.new 4 ['m'] (some 0))).1 (.new 2 ['U'] none)).1
+      (.setattr 4 ['u'] 2)).2 = .ok := by
   decide
 
 end PwVerif.C13
@@ -288,3 +306,4 @@ end PwVerif.C13
 #print axioms PwVerif.C13.C13_self_adoption_witness
 #print axioms PwVerif.C13.C13_false_cycle_witness
 #print axioms PwVerif.C13.C13_replace_false_cycle_witness
+#print axioms PwVerif.C13.C13_constructor_zombie_witness
